@@ -634,6 +634,15 @@ func localSampleF32(a [3]int) View {
 }
 
 func driveAllocExtra(s *shardSet, rng *rand.Rand) {
+	// channel counts beyond 16 bits (one frame): the count must not be narrowed anywhere
+	for _, ch := range []int{65535 + rng.Intn(2), 65537 + rng.Intn(3)} {
+		w := s.Next()
+		w.Reset()
+		w.Alloc([]string{"int8", "uint8"}[rng.Intn(2)], ch, 1, 1)
+		w.ChanSet(0, ch-1, 0, w.NextStamp())
+		w.ChanSet(0, ch-65535, 0, w.NextStamp())
+		w.Slice(0, 0, 1)
+	}
 	w := s.Next()
 	w.Reset()
 	for rep := 0; rep < 2; rep++ {
@@ -729,9 +738,17 @@ func allocBurst(s *shardSet) {
 
 func init() {
 	profileFns["slice"] = driveSlice
-	profileFns["append"] = driveAppend
-	profileFns["appendsample"] = driveAppendSample
-	profileFns["io"] = driveIO
-	profileFns["channel"] = driveChannel
+	withExtremes := func(f func(*shardSet, *rand.Rand, bool) ([]string, map[string]int)) func(*shardSet, *rand.Rand, bool) ([]string, map[string]int) {
+		return func(s *shardSet, rng *rand.Rand, thorough bool) ([]string, map[string]int) {
+			types, extra := f(s, rng, thorough)
+			driveExtremes(s, rng, thorough)
+			driveWideFrames(s, rng, thorough)
+			return types, extra
+		}
+	}
+	profileFns["append"] = withExtremes(driveAppend)
+	profileFns["appendsample"] = withExtremes(driveAppendSample)
+	profileFns["io"] = withExtremes(driveIO)
+	profileFns["channel"] = withExtremes(driveChannel)
 	profileFns["alloc"] = driveAlloc
 }
